@@ -18,6 +18,7 @@ C14 — line-protocol driver (stateful: the loaded plugins and the configuration
 The behaviour of a command body is fixed by the first letter of its name, as in harness/plugins/VtOrder*.
 -/
 import LimnoriaModel.C14.Model
+import LimnoriaModel.C14.Machine
 import LimnoriaModel.Driver.Core
 namespace C14
 open Py Wire
@@ -118,12 +119,34 @@ def vtInvHandler (who : Char) (_nested : Nat) (tokens : List Str) : Act :=
 def miscErrText (tokens : List Str) : Str :=
   txt "\"" ++ tokens.head?.getD [] ++ txt "\" is not a valid command."
 
-def DState.invChain (s : DState) : Nat → List Str → Act :=
+def DState.invChainR (s : DState) (msgReplied : Bool) : Nat → List Str → Act :=
   invalidChain ((s.invOrder.filterMap fun n =>
       if n = txt "VtOrderA" then some (vtInvHandler 'a')
       else if n = txt "VtOrderB" then some (vtInvHandler 'b')
-      else if n = txt "Misc" then some (miscInvalid s.whenNotCommand s.brackets miscErrText)
+      else if n = txt "Misc" then
+        -- `assert not msg.repliedTo` at the top of Misc.invalidCommand: an AssertionError the chain logs
+        some (if msgReplied then fun _ _ => ⟨false, .raise (.other (txt "AssertionError"))⟩
+              else miscInvalid s.whenNotCommand s.brackets miscErrText)
       else none))
+
+def DState.invChain (s : DState) : Nat → List Str → Act := s.invChainR false
+
+/-- bodies that use `irc` more than once (letters d m c p k u g f t of harness/plugins/VtOrder*), else the single-use ones -/
+def vtBody (plugin : Str) (command rest : List Str) : Body :=
+  let name := command.getLast?.getD []
+  let text := name ++ txt "(" ++ joinStr (txt ", ") rest ++ txt ")"
+  if plugin = txt "Utilities" then (vtBeh plugin command rest).toBody else
+  match name.head? with
+  | some 'd' => ⟨[.reply text, .reply (text ++ txt "!")], none⟩
+  | some 'm' => ⟨[.reply (txt "m1"), .reply (txt "m2")], none⟩
+  | some 'c' => ⟨[.reply (txt "c1 and c2")], none⟩
+  | some 'p' => ⟨[.reply text, .error (txt "P:" ++ name)], none⟩
+  | some 'k' => ⟨[.reply text, .noReply], none⟩
+  | some 'u' => ⟨[.reply (txt "The operation succeeded.")], none⟩
+  | some 'g' => ⟨[.send (txt "G:" ++ name), .reply text], none⟩
+  | some 'f' => ⟨[.error (txt "F:" ++ name), .reply text], none⟩
+  | some 't' => ⟨[.reply text], some (.other (txt "ValueError: boom " ++ name))⟩
+  | _ => (vtBeh plugin command rest).toBody
 
 def vtHelp (command : List Str) : Str :=
   txt "(\x02" ++ joinStr (txt " ") command ++ txt " <anything>\x02) -- Synthetic C14 command " ++
@@ -206,7 +229,19 @@ def confOfStr (x : Str) : ConfName :=
 def encOwner (r : OwnerSt × Bool) : String :=
   (if r.2 then "ok" else "err") ++ "\t" ++ encStore r.1.store ++ "\t" ++ encList (r.1.conf.map confStr)
 
-def step (s : DState) : List String → DState × String
+def encOut : Out → String
+  | .reply s => "r" ++ enc s
+  | .error s => "e" ++ enc s
+  | .sent s => "s" ++ enc s
+
+def DState.mcfg (s : DState) : MCfg :=
+  { ev := s.evCfg, disp := dispatch s.dispCfg, beh := vtBody, inv := s.invChainR,
+    threaded := fun name => (s.recs.find? fun r => r.parent.isNone && r.name = name).any (·.threaded),
+    nestText := txt "You've attempted more nesting than is currently allowed on this bot.",
+    ambigText := fun cmd names => txt "AMBIGUOUS " ++ joinStr (txt " ") cmd ++ txt " : " ++ joinStr (txt ",") names,
+    assertText := txt "AssertionError: finalEval called twice." }
+
+def dstep (s : DState) : List String → DState × String
   | ["reset"] => ({}, "ok")
   | ["plugin", id, parent, name, thr, methods] =>
     match decNat id, (if parent = "-" then some none else (decNat parent).map some), dec name, decBool thr, decList methods with
@@ -282,6 +317,13 @@ def step (s : DState) : List String → DState × String
     match decBool w, dec b, decList order with
     | some w, some b, some order => ({ s with whenNotCommand := w, brackets := b, invOrder := order }, "ok")
     | _, _, _ => (s, "bad-op")
+  | ["meval", tree] =>
+    match decTree tree with
+    | some args =>
+      let c := runFirst s.mcfg 100000 (initConfig s.mcfg args s.ignored0)
+      (s, (if c.out.isEmpty then "-" else ",".intercalate (c.out.map encOut)) ++ "\t@\t" ++ encLog c.log ++ "\t" ++
+          (if c.ignored then "1" else "0") ++ "\t" ++ (if c.threads.all (·.isEmpty) then "done" else "fuel"))
+    | none => (s, "bad-op")
   | ["eval", tree] =>
     match decTree tree with
     | some args =>
@@ -290,5 +332,5 @@ def step (s : DState) : List String → DState × String
     | none => (s, "bad-op")
   | _ => (s, "bad-op")
 
-def handler : Driver.Handler := { σ := DState, init := {}, step := step }
+def handler : Driver.Handler := { σ := DState, init := {}, step := dstep }
 end C14
